@@ -9,6 +9,8 @@ import (
 	"strings"
 	"sync"
 	"unicode"
+
+	"github.com/ajitpratap0/GoSQLX/pkg/sql/keywords"
 )
 
 // builderPool reuses strings.Builder instances for SQL serialization,
@@ -77,12 +79,52 @@ func safeIdentifier(name string) string {
 	if name == "" {
 		return `""`
 	}
+	if name == "*" {
+		return name
+	}
 	for _, r := range name {
 		if r != '_' && r != '*' && r != '.' && !unicode.IsLetter(r) && !unicode.IsDigit(r) {
 			return `"` + strings.ReplaceAll(name, `"`, `""`) + `"`
 		}
 	}
+	if reservedWords.IsReserved(name) {
+		// a reserved word only reads back as a name when quoted
+		return `"` + name + `"`
+	}
 	return name
+}
+
+// reservedWords classifies words that cannot be written as bare identifiers.
+var reservedWords = keywords.New(keywords.DialectGeneric, true)
+
+// safeName quotes an object name or alias that needs it.
+func safeName(name string) string {
+	if name == "" {
+		return ""
+	}
+	return safeIdentifier(name)
+}
+
+// safeNames quotes each name of a list.
+func safeNames(names []string) []string {
+	out := make([]string, len(names))
+	for i, n := range names {
+		out[i] = safeName(n)
+	}
+	return out
+}
+
+// safeQualifiedName quotes a dotted object name ("schema.table") part by part;
+// the parser stores qualified names joined with dots.
+func safeQualifiedName(name string) string {
+	if !strings.Contains(name, ".") {
+		return safeName(name)
+	}
+	parts := strings.Split(name, ".")
+	for i, part := range parts {
+		parts[i] = safeName(part)
+	}
+	return strings.Join(parts, ".")
 }
 
 // escapeStringLiteral escapes a string for safe inclusion in a single-quoted
@@ -284,7 +326,7 @@ func (a *AliasedExpression) SQL() string {
 	if a == nil {
 		return ""
 	}
-	return exprSQL(a.Expr) + " AS " + a.Alias
+	return exprSQL(a.Expr) + " AS " + safeName(a.Alias)
 }
 
 func (c *CastExpression) SQL() string {
@@ -646,7 +688,7 @@ func (i *InsertStatement) SQL() string {
 	}
 
 	sb.WriteString("INSERT INTO ")
-	sb.WriteString(i.TableName)
+	sb.WriteString(safeQualifiedName(i.TableName))
 
 	if len(i.Columns) > 0 {
 		sb.WriteString(" (")
@@ -695,10 +737,10 @@ func (u *UpdateStatement) SQL() string {
 	}
 
 	sb.WriteString("UPDATE ")
-	sb.WriteString(u.TableName)
+	sb.WriteString(safeQualifiedName(u.TableName))
 	if u.Alias != "" {
 		sb.WriteString(" ")
-		sb.WriteString(u.Alias)
+		sb.WriteString(safeName(u.Alias))
 	}
 
 	sb.WriteString(" SET ")
@@ -744,10 +786,10 @@ func (d *DeleteStatement) SQL() string {
 	}
 
 	sb.WriteString("DELETE FROM ")
-	sb.WriteString(d.TableName)
+	sb.WriteString(safeQualifiedName(d.TableName))
 	if d.Alias != "" {
 		sb.WriteString(" ")
-		sb.WriteString(d.Alias)
+		sb.WriteString(safeName(d.Alias))
 	}
 
 	if len(d.Using) > 0 {
@@ -1276,11 +1318,11 @@ func tableRefSQL(t *TableReference) string {
 		sb.WriteString(t.Subquery.SQL())
 		sb.WriteString(")")
 	} else {
-		sb.WriteString(t.Name)
+		sb.WriteString(safeQualifiedName(t.Name))
 	}
 	if t.Alias != "" {
 		sb.WriteString(" ")
-		sb.WriteString(t.Alias)
+		sb.WriteString(safeName(t.Alias))
 	}
 	return sb.String()
 }
@@ -1359,7 +1401,7 @@ func forSQL(f *ForClause) string {
 	sb.WriteString(f.LockType)
 	if len(f.Tables) > 0 {
 		sb.WriteString(" OF ")
-		sb.WriteString(strings.Join(f.Tables, ", "))
+		sb.WriteString(strings.Join(safeNames(f.Tables), ", "))
 	}
 	if f.NoWait {
 		sb.WriteString(" NOWAIT")
@@ -1373,10 +1415,10 @@ func forSQL(f *ForClause) string {
 func cteSQL(cte *CommonTableExpr) string {
 	sb := getBuilder()
 	defer putBuilder(sb)
-	sb.WriteString(cte.Name)
+	sb.WriteString(safeName(cte.Name))
 	if len(cte.Columns) > 0 {
 		sb.WriteString(" (")
-		sb.WriteString(strings.Join(cte.Columns, ", "))
+		sb.WriteString(strings.Join(safeNames(cte.Columns), ", "))
 		sb.WriteString(")")
 	}
 	sb.WriteString(" AS ")
